@@ -144,6 +144,7 @@ class Result:
             sp['evaluations'] += 1
         if v.skip:
             self.skipped += 1
+            self.counters['out_of_domain:' + v.outcome] += 1
             if sp is not None:
                 sp['out_of_domain'] += 1
             return
